@@ -1,6 +1,7 @@
 package main
 
 import (
+	"sync"
 	"errors"
 	"fmt"
 	"io"
@@ -349,4 +350,23 @@ func (r *Rng) unimodular(maxBits int) (ux, uy, vx, vy int64) {
 		ux, uy, vx, vy = nx, ny, ux, uy
 	}
 	return
+}
+
+// concurrently runs the functions at the same time (released together) and returns their results
+// in order; a panic in one is that one's "(panic)".
+func concurrently(fs []func() string) []string {
+	out := make([]string, len(fs))
+	start := make(chan struct{})
+	var wg sync.WaitGroup
+	for i := range fs {
+		wg.Add(1)
+		go func(i int) {
+			defer wg.Done()
+			<-start
+			out[i] = guard(fs[i])
+		}(i)
+	}
+	close(start)
+	wg.Wait()
+	return out
 }
